@@ -16,6 +16,7 @@ EXPLANATION = (
     "Also decided: removal in the error handler cannot raise; single results pass _streamResponse; the client tests the stream flag before the accompanying exception; housekeeping deletes only after a fresh look-up; the out-of-sync close uses a copy of the stream's proxy; the stream table is per daemon. "
     "virtual time."
     'Also decided (round 8): PYRO_* environment settings (ITER_STREAM_LINGER=0, ITER_STREAMING=off) are stored as converted, not through a truthiness fallback. '
+    'Also decided (round 9): One __next__ sends one item fetch and communication errors are not retried; nothing in the housekeeping pass can raise (no calls into user iterators). '
     "Not decided (most of the property): item order, no loss/duplication, interleavings of next/close/reconnect/housekeeping, "
 )
 
